@@ -19,7 +19,7 @@ pub struct Case {
     pub probe: Option<String>,
 }
 
-pub const PROBES: [&str; 19] = [
+pub const PROBES: [&str; 20] = [
     "pronoun_after_if",
     "pronoun_write_after_if",
     "pronoun_after_call",
@@ -39,6 +39,7 @@ pub const PROBES: [&str; 19] = [
     "pronoun_as_index",
     "function_visible_again_after_shadowing_call",
     "duplicate_parameter",
+    "single_declaring_statement_in_block",
 ];
 
 impl Prop for C05 {
